@@ -61,6 +61,9 @@ pub fn feature_mask(feat: &serde_json::Value) -> Vec<i64> {
         v.push(libc::SYS_open_tree);
         v.push(libc::SYS_move_mount);
     }
+    if !get("fsopen") {
+        v.push(libc::SYS_fsopen);
+    }
     if !get("statx") {
         v.push(libc::SYS_statx);
     }
